@@ -5,7 +5,7 @@ Driver for C13.  One case = one history on one runner:
 
   input : {"expire": ns, "calls": [{"c": cid, "payloads": [payload…]}, …], …}
   impl  : {"events": [{"t":"s","c":cid,"now":ns} | {"t":"d","c":cid,"now":ns,"batch":[payload…],"ok":bool,"res":[result…]}, …],
-           "rets":   [{"c":cid,"vals":[result…],"err":0|1|2}, …]}
+           "rets":   [{"c":cid,"vals":[result…],"err":0|1|2,"cancelled":bool}, …]}
 
 `events` are the runner's cache accesses in the order they happened (look-up loop of
 a call, aggregation of one batch), as logged by the harness at distinct virtual
@@ -41,10 +41,15 @@ structure RetIn where
   cid : Nat
   ret : Ret
   code : Nat
+  cancelled : Bool   -- the caller's context was done when the call returned
 
 def retIn (j : Json) : R RetIn := do
   let code ← natF j "err"
-  pure { cid := ← natF j "c", ret := { values := ← listF checkResult j "vals", err := code != 0 }, code := code }
+  let cancelled ← match fieldD j "cancelled" (.bool false) with
+    | .bool b => pure b
+    | _ => throw "cancelled: not a bool"
+  pure { cid := ← natF j "c", ret := { values := ← listF checkResult j "vals", err := code != 0 }, code := code,
+         cancelled := cancelled }
 
 structure St where
   cache : Cache := []
@@ -88,14 +93,21 @@ def interleaved : List Ev → Bool
      | some l => (es.take l).any (fun e => match e with | .done c _ _ => c != cid | .start _ _ _ => true)) || interleaved es
   | _ :: es => interleaved es
 
-def step (expire : Nat) : St → List Ev → St
+def step (expire : Nat) (canc : Nat → Bool) : St → List Ev → St
   | st, [] => st
   | st, .start cid now ps :: es =>
     let ds := donesOf cid es
-    let r := modelCall expire st.cache now ps ds
+    let r := modelCall expire st.cache now ps ds (canc cid)
     let nb := (batches st.cache now ps).length
-    step expire { st with rets := (cid, r) :: st.rets, tags := callTags st.cache now ps ds st.tags,
-                          nontriv := st.nontriv || nb ≥ 2 || (nb ≥ 1 && !(hits st.cache now ps).isEmpty) } es
+    let ts := callTags st.cache now ps ds st.tags
+    let ts := if canc cid then addTag "ctx-done-at-return" ts else ts
+    let ts := if canc cid && ds.length < nb then addTag "ctx-done:batches-never-submitted" ts else ts
+    let ts := if canc cid && ds.any (fun d => d.2.res.isSome) && ds.any (fun d => d.2.res.isNone)
+              then addTag "ctx-done:some-batches-succeeded-before" ts else ts
+    let ts := if canc cid && !ds.isEmpty && ds.all (fun d => d.2.res.isNone) then addTag "ctx-done:every-batch-failed" ts else ts
+    let ts := if canc cid && !ds.isEmpty && ds.all (fun d => d.2.res.isSome) then addTag "ctx-done:after-last-batch-succeeded" ts else ts
+    step expire canc { st with rets := (cid, r) :: st.rets, tags := ts,
+                               nontriv := st.nontriv || nb ≥ 2 || (nb ≥ 1 && !(hits st.cache now ps).isEmpty) } es
   | st, .done cid b o :: es =>
     let ts := match o.res with
       | some rs =>
@@ -106,30 +118,33 @@ def step (expire : Nat) : St → List Ev → St
                     | some old => decide (r.trigger.blockNumber > old.trigger.blockNumber) | none => false))
         then addTag "cache-replaced(higher block)" ts else ts
       | none => st.tags
-    step expire { st with cache := cacheStep expire st.cache (.done cid b o), tags := ts } es
+    step expire canc { st with cache := cacheStep expire st.cache (.done cid b o), tags := ts } es
 
 def handle (input impl : Json) : R Reply := do
   let expire ← natF input "expire"
   let calls ← listF callIn input "calls"
   let evs ← listF (evOf calls) impl "events"
   let rets ← listF retIn impl "rets"
-  let st := step expire {} evs
-  let implRets := rets.map fun r => (r.cid, r.ret)
+  let canc := fun cid => match rets.find? (fun r => r.cid == cid) with | some r => r.cancelled | none => false
+  let st := step expire canc {} evs
+  let implRets := rets.map fun r => (r.cid, r.ret, r.cancelled)
   -- agreement: same error flag and the same multiset of results for every call
   let bad := st.rets.reverse.filterMap fun (cid, m) =>
     match m, rets.find? (fun r => r.cid == cid) with
-    | none, _ => some s!"call {cid}: the batches seen by the pipeline are not the predicted ones"
+    | none, _ => some s!"call {cid}: the batches seen by the pipeline are not the predicted ones, each once (all of them while the caller's context is alive)"
     | some _, none => some s!"call {cid}: no return value"
     | some m, some r =>
       if m.err != r.ret.err then some s!"call {cid}: model err={m.err} impl err code={r.code}"
       else if r.code == 2 then some s!"call {cid}: error other than ErrTooManyErrors"
       else if !(m.values.isPerm r.ret.values) then
-        some s!"call {cid}: model {m.values.length} results {(m.values.take 4).map showResult}… impl {r.ret.values.length} results {(r.ret.values.take 4).map showResult}…"
+        let lost := mdiff m.values r.ret.values
+        let extra := mdiff r.ret.values m.values
+        some s!"call {cid}: model {m.values.length} results, impl {r.ret.values.length}; {lost.length} missing from impl {(lost.take 2).map showResult}…, {extra.length} only in impl (duplicates or foreign) {(extra.take 2).map showResult}…"
       else none
   let nStarts := (evs.filter (fun e => match e with | .start _ _ _ => true | _ => false)).length
   let bad := if nStarts != calls.length then s!"{calls.length} calls, {nStarts} start events" :: bad else bad
   let agree := bad.isEmpty
-  let modelRets := st.rets.filterMap fun (cid, m) => m.map fun r => (cid, r)
+  let modelRets := st.rets.filterMap fun (cid, m) => m.map fun r => (cid, r, canc cid)
   let sm := specTrace evs modelRets
   let si := specTrace evs implRets
   let exact := st.rets.all fun (cid, m) => match m, rets.find? (fun r => r.cid == cid) with
@@ -139,6 +154,9 @@ def handle (input impl : Json) : R Reply := do
   let tags := if exact then addTag "same-order-as-model" tags else tags
   let tags := if interleaved evs then addTag "calls-interleaved" tags else tags
   let tags := if nStarts ≥ 2 then addTag "several-calls" tags else tags
+  let tags := match fieldD input "instant" (.bool false) with
+    | .bool true => addTag "instant-pipeline(batches complete concurrently)" tags
+    | _ => tags
   pure { agree := agree, specModel := sm, specImpl := si,
          diff := if agree then "" else "; ".intercalate (bad.take 3),
          fail := if si then "" else explainTrace evs implRets,
